@@ -1396,7 +1396,7 @@ fn run_labelled(c: &Case, ctx: &Ctx) -> Out {
 fn main() {
     let mut ck = Check::new(
         "C14",
-        "pairs of exact values ±(n/d)·B^e (B in 2,3,10,16) or ±inf/NaN/−0.0, each materialised in every type that holds it exactly (UBig, IBig, FBig<_,2|10|16|3>, float Repr, RBig, Relaxed with a non-reduced common factor, u8..u128/usize, i8..i128/isize, f32, f64); b is derived from a: identical, equal but respelled, n±1 (one ulp), (nK±1)/(dK), negated, doubled/halved, integer part ±1, truncated to 24/53 bits (+1 ulp), another base with log2 within ~3, independent; classes: primitive-boundary integers, big integers, dyadic values around the f32/f64 normal/subnormal/overflow edges, decimals and base-3 values, rationals, values built from the hash modulus 2^127−1, exponents ±10^6 (decimal) / ±10^7 (binary), specials. Every implemented (Self,Rhs) of NumOrd (all 8 methods), AbsOrd, AbsEq, PartialOrd/PartialEq is probed (<= 64 sampled pairs per case) against exact cross multiplication, or 256-bit ball enclosures when an exponent is huge; NumHash of all representations of one value, and of equal values, must agree. Non-trivial: a probed pair has different types and |log2|a| − log2|b|| < 2 (or both zero); distinct by case digest.",
+        "pairs of exact values ±(n/d)·B^e (B in 2,3,10,16) or ±inf/NaN/−0.0, each materialised in every type that holds it exactly (UBig, IBig, FBig<_,2|10|16|3>, float Repr, RBig, Relaxed with a non-reduced common factor, u8..u128/usize, i8..i128/isize, f32, f64); b is derived from a: identical, equal but respelled, n±1 (one ulp), (nK±1)/(dK), negated, doubled/halved, integer part ±1, truncated to 24/53 bits (+1 ulp), another base with log2 within ~3, independent; classes: primitive-boundary integers, big integers, dyadic values around the f32/f64 normal/subnormal/overflow edges, decimals and base-3 values, rationals, values built from the hash modulus 2^127−1, exponents ±10^6 (decimal) / ±10^7 (binary), specials. Every implemented (Self,Rhs) of NumOrd (all 8 methods), AbsOrd, AbsEq, PartialOrd/PartialEq is probed (<= 64 sampled pairs per case) against exact cross multiplication, or 256-bit ball enclosures when an exponent is huge; NumHash of all representations of one value, and of equal values, must agree (sub hash_any_exponent: floats n·B^e with e over the whole isize range — hash without panic, FBig = Repr, base 16 = base 2 where 4e fits). Non-trivial: a probed pair has different types and |log2|a| − log2|b|| < 2 (or both zero); distinct by case digest.",
     );
     ck.assume("dv::ball (rigorous enclosures) for the huge-exponent comparisons; num-order 1.2 NumHash of the primitive types as the reference hash of primitives");
     const ALL: &[u8] = &[CL_SMALL_INT, CL_BIG_INT, CL_DYADIC, CL_DECIMAL, CL_RATIONAL, CL_HASHMOD, CL_SPECIAL];
@@ -1409,5 +1409,85 @@ fn main() {
     ck.sub("hash_modulus", (12_000, 360_000), || case_strategy(CL_HASHMOD, ALL), run_labelled);
     ck.sub("huge_exp", (3_000, 90_000), || case_strategy(CL_HUGE, WITH_HUGE), run_labelled);
     ck.sub("specials", (5_000, 150_000), || case_strategy(CL_SPECIAL, WITH_HUGE), run_labelled);
+    // hashing alone, with exponents over the whole isize range (no other type holds such a value,
+    // and a comparison would have to materialise B^|e|): the hash is computed without a panic, FBig
+    // and its Repr agree, the same value spelled in base 2 and in base 16 (e·4 within isize) agrees
+    ck.sub(
+        "hash_any_exponent",
+        (6_000, 180_000),
+        || {
+            (0u8..4, 0u8..8, any::<u64>(), any::<u64>(), any::<bool>()).prop_map(|(bsel, esel, es, ns, neg)| {
+                let base = [2u32, 16, 10, 3][bsel as usize];
+                let mag: u64 = match esel {
+                    0 => es >> 1,                                         // anywhere
+                    1 => (1u64 << (20 + es % 43)) + (es >> 58),           // 2^k + small
+                    2 => (1u64 << (20 + es % 43)) - 1 - (es >> 60),       // 2^k − small
+                    3 => i64::MAX as u64 - (es >> 56),                    // top of the range
+                    4 => (i64::MAX as u64) / [1u64, 2, 3, 4, 5, 8][(es % 6) as usize] + (es >> 61), // overflow thresholds of e·log2 B
+                    5 => 127 * (es >> 8) % (i64::MAX as u64),             // multiples of the order of 2 mod 2^127−1
+                    6 => es % 100_000,
+                    _ => (es >> 1) | 1 << 62,
+                };
+                let mag = mag.min(i64::MAX as u64) as i64;
+                // both ends of the range included (isize::MIN now and then: |e| does not fit isize)
+                let e = if es & 1 == 0 { mag } else if esel == 3 && es >> 56 == 0 { i64::MIN } else { -mag };
+                let n = match ns % 4 {
+                    0 => 1,
+                    1 => 1 + (ns >> 2) % 99,
+                    2 => (ns >> 2) | 1,
+                    _ => 3,
+                };
+                // the significand must not be a multiple of the base (normal form)
+                let n = if n % base as u64 == 0 { n + 1 } else { n };
+                (base, n, e, neg)
+            })
+        },
+        |c: &(u32, u64, i64, bool), _ctx: &Ctx| {
+            let mut out = Out::new();
+            let (base, n, e, neg) = *c;
+            out.nontrivial(true);
+            out.label(match base {
+                2 => "hash-exp: base 2",
+                16 => "hash-exp: base 16",
+                10 => "hash-exp: base 10",
+                _ => "hash-exp: base 3",
+            });
+            out.label(match e.unsigned_abs() {
+                0..=0xf_ffff => "hash-exp: |e| < 2^20",
+                0x10_0000..=0x1fff_ffff_ffff_ffff => "hash-exp: 2^20 <= |e| < 2^61",
+                _ => "hash-exp: |e| >= 2^61",
+            });
+            let sig = if neg { -IBig::from(n) } else { IBig::from(n) };
+            macro_rules! go {
+                ($B:literal) => {{
+                    let r = Repr::<$B>::new(sig.clone(), e as isize);
+                    let f = FBig::<mode::Zero, $B>::from_repr(r.clone(), Context::new(0));
+                    (obs_hash(&r), obs_hash(&f))
+                }};
+            }
+            let (hr, hf) = match base {
+                2 => go!(2),
+                16 => go!(16),
+                10 => go!(10),
+                _ => go!(3),
+            };
+            let what = format!("{}{n}·{base}^{e}", if neg { "-" } else { "" });
+            match (&hr, &hf) {
+                (Ok(a), Ok(b)) => out.check(a == b, || format!("num_hash of {what}: Repr and FBig disagree")),
+                (Err(m), _) | (_, Err(m)) => out.fail(format!("num_hash of {what} panicked: {}", normalise(m))),
+            }
+            // 16^e = 2^(4e)
+            if base == 16 && e.checked_mul(4).is_some() {
+                let r2 = Repr::<2>::new(sig.clone(), (4 * e) as isize);
+                match (obs_hash(&r2), &hr) {
+                    (Ok(a), Ok(b)) => out.check(a == *b, || format!("num_hash of {what} differs from that of the equal base-2 number {n}·2^{}", 4 * e)),
+                    (Err(m), _) => out.fail(format!("num_hash of {n}·2^{} panicked: {}", 4 * e, normalise(&m))),
+                    _ => {}
+                }
+                out.label("hash-exp: base 16 against the equal base-2 number");
+            }
+            out
+        },
+    );
     ck.finish();
 }
